@@ -62,11 +62,33 @@ func PlanFor(tier string) []LenPlan {
 		}
 		return out
 	}
+	return DefaultPlan(tier, true)
+}
+
+// DefaultPlan: lists of length <= 2 are explored over EVERY schedule (no bound) without and
+// with every single fault. Executions of 3 type groups already have 400-840 schedules with
+// zero preemptions (every goroutine exit / WaitGroup block is a free choice among the
+// others), so longer lists get lower bounds; full = false (configurations whose generated
+// federation code is identical to an already fully explored one) keeps length 3 at the
+// canonical schedule.
+func DefaultPlan(tier string, full bool) []LenPlan {
 	k := len(Alphabet)
 	if tier == "thorough" {
-		return []LenPlan{{0, Unbounded, NotRun, k}, {1, Unbounded, Unbounded, k}, {2, Unbounded, Unbounded, k}, {3, 1, 0, k}, {4, First, First, k}}
+		if !full {
+			return []LenPlan{{0, Unbounded, NotRun, k}, {1, Unbounded, Unbounded, k}, {2, Unbounded, Unbounded, k}, {3, First, First, k}, {4, First, NotRun, k}}
+		}
+		return []LenPlan{{0, Unbounded, NotRun, k}, {1, Unbounded, Unbounded, k}, {2, Unbounded, Unbounded, k}, {3, 0, First, k}, {4, First, NotRun, k}}
 	}
-	return []LenPlan{{0, Unbounded, NotRun, k}, {1, Unbounded, Unbounded, k}, {2, Unbounded, Unbounded, k}, {3, 0, First, k}}
+	return []LenPlan{{0, Unbounded, NotRun, k}, {1, Unbounded, Unbounded, k}, {2, Unbounded, Unbounded, k}, {3, First, First, k}}
+}
+
+// Encode renders a plan in the VERIF_C20_PLAN syntax.
+func Encode(plan []LenPlan) string {
+	var parts []string
+	for _, p := range plan {
+		parts = append(parts, fmt.Sprintf("%d:%d:%d:%d", p.Len, p.NoFault, p.Fault, p.K))
+	}
+	return strings.Join(parts, ",")
 }
 
 // Job is one scenario: a case and its preemption bound.
